@@ -54,6 +54,13 @@ def extras(ctx, prop, outs, corpus=True):
     t0 = time.time()
     agree, bad = solver_agreement(outs)
     info = {"solver_agreement": agree, "solver_disagreements": bad}
+    cs = [o["cosim"] for o in outs if o.get("cosim")]
+    if cs:
+        info["cosimulation"] = {"tasks_sampled": len([c for c in cs if not c.get("skipped")]), "tasks_skipped": len([c for c in cs if c.get("skipped")]),
+                                "samples": sum(c["samples"] for c in cs), "agree": sum(c["agree"] for c in cs),
+                                "not_comparable": sum(c["not_comparable"] for c in cs),
+                                "disagreements": [dict(d, task=c["task"]) for c in cs for d in c["disagree"]][:10],
+                                "skipped_why": sorted({c["skipped"] for c in cs if c.get("skipped")})[:6]}
     if not corpus:
         return info
     must_fail, must_pass = [], []
